@@ -529,6 +529,22 @@ def classify(rec, it, m):
     return out
 
 
+def group_key(a):
+    """Attribution used to group disagreements into findings: a wrong destination is charged to the
+    cipher whatever hash is chained behind it (a wrong tag is then only a consequence), a wrong tag
+    over a correct destination to the hash; the entry point class is dropped because with several
+    jobs in flight it depends on lane timing."""
+    f = a["field"]
+    if f.startswith("dst") or "+dst" in f or f.startswith("canary") or f.startswith("crash") or f == "niv" or "src" in f:
+        who = "cipher=%d" % a["cipher"] if a["cipher"] != C_NULL else "hash=%d" % a["hash"]
+    elif f.startswith("status"):
+        who = "cipher=%d,hash=%d" % (a["cipher"], a["hash"])
+    else:
+        who = "hash=%d" % a["hash"] if a["hash"] != H_NULL else "cipher=%d" % a["cipher"]
+    core = "dst" if ("dst" in f.split("+")) else f
+    return "%s,class=%s,vars=%s,batch=%s,field=%s" % (who, a["class"], a["vars"], a["batch"], core)
+
+
 def signature(a):
     return "cipher=%d,hash=%d,class=%s,vars=%s,eps=%s,batch=%s,field=%s" % (
         a["cipher"], a["hash"], a["class"], a["vars"], a["eps"], a["batch"], a["field"])
@@ -925,7 +941,7 @@ def run_check(pid, tier, seed, generate, derive=None, test_files=(), title="", t
         if hit:
             known_hits[hit] += 1
             continue
-        groups.setdefault(signature(d["attrs"]), []).append(d)
+        groups.setdefault(group_key(d["attrs"]), []).append(d)
     for line, n in known_hits.items():
         res.known.append("%s [matched %d disagreeing items in this run]" % (line.split(" ", 1)[1] if " " in line else line, n))
 
@@ -973,7 +989,8 @@ def run_check(pid, tier, seed, generate, derive=None, test_files=(), title="", t
         "skipped": {k[5:]: v for k, v in st.items() if k.startswith("skip_")},
         "items_agreeing_on_every_path": int(st.get("items_agree", 0)),
         "items_disagreeing": len({d["id"] for d in dis}),
-        "disagreement_signatures": {k: len(v) for k, v in groups.items()},
+        "disagreement_groups": {k: len(v) for k, v in groups.items()},
+        "disagreement_signatures": dict(collections.Counter(signature(d["attrs"]) for v in groups.values() for d in v).most_common(60)),
         "known_finding_hits": sum(known_hits.values()),
         "model_selfcheck_failures": selfcheck[:10],
         "traces_validated_against_impl": int(st.get("completed_results", 0)),
@@ -997,8 +1014,11 @@ def run_check(pid, tier, seed, generate, derive=None, test_files=(), title="", t
     t_min0 = time.time()
     budget = 40 if tier == "quick" else 240
     for sig, ds in groups.items():
-        ds.sort(key=lambda d: (len(byid[d["id"]]["msg"]), d["id"]))
+        # smallest example first, preferring items without a second algorithm chained in
+        ds.sort(key=lambda d: (byid[d["id"]]["cipher"] != C_NULL and byid[d["id"]]["hash"] != H_NULL,
+                               len(byid[d["id"]]["msg"]), d["id"]))
         d = ds[0]
+        sigs = collections.Counter(signature(x["attrs"]) for x in ds)
         a = d["attrs"]
         it = byid[d["id"]]
         ctx, batch, variants, eps, mm, pr, dd = [it], max(p[2] for p in d["paths"]), None, None, None, None, None
@@ -1026,7 +1046,8 @@ def run_check(pid, tier, seed, generate, derive=None, test_files=(), title="", t
                    "(the standard and the header are silent there); " + what
         target = [x for x in ctx if x["id"] == d["id"]][0]
         replay = {
-            "property": pid, "kind": "K1 disagreement", "class": a["class"], "signature": sig, "meaning": what,
+            "property": pid, "kind": "K1 disagreement", "class": a["class"], "group": sig, "signature": signature(a),
+            "signatures_in_group": dict(sigs.most_common(12)), "meaning": what,
             "attrs": a, "items_in_this_run_with_this_signature": len(ds),
             "other_item_ids": [x["id"] for x in ds[1:20]],
             "batch": batch, "variants": variants or "all", "eps": eps if eps is not None else "all",
@@ -1038,7 +1059,7 @@ def run_check(pid, tier, seed, generate, derive=None, test_files=(), title="", t
             "reproduced_after_minimisation": dd is not None,
             "seed": seed, "tier": tier,
         }
-        note = "%s %s len=%d items=%d :: %s" % (sig, algo_name(a["cipher"], a["hash"]),
+        note = "%s [%s] %s len=%d items=%d :: %s" % (sig, signature(a), algo_name(a["cipher"], a["hash"]),
                                                 max(cipher_bytes(target), hash_bytes(target)), len(ds), what.split(":")[0])
         res.violation(replay, note=note, name="k1_%s_%d" % (a["class"], len(res.violations)))
     broken = pres["discharged"] != pres["obligations"] or pres["failed"] or pres["obligations"] == 0
